@@ -83,3 +83,20 @@ Print Assumptions C15_class_check_paths.
 Theorem C15_failing_mismatches : forall cs, failing (run_cases cs) = ClassAuto.mismatches cs.
 Proof. exact ClassAuto.failing_mismatches. Qed.
 Print Assumptions C15_failing_mismatches.
+
+(* ---- the range splitter of nfa/compile.go (1-, 2- and 4-byte parts) *)
+Theorem C15_utf8_range1_correct : forall lo hi, (lo <= hi)%N -> (hi <= 0x7F)%N ->
+  forall bs, in_seqs bs (seqs1 lo hi) = true <-> exists r, (lo <= r <= hi)%N /\ bs = encode r.
+Proof. exact ClassAuto.utf8_range1_correct. Qed.
+Print Assumptions C15_utf8_range1_correct.
+
+Theorem C15_utf8_range2_correct : forall lo hi, (0x80 <= lo)%N -> (lo <= hi)%N -> (hi <= 0x7FF)%N ->
+  forall bs, in_seqs bs (seqs2 lo hi) = true <-> exists r, (lo <= r <= hi)%N /\ bs = encode r.
+Proof. exact ClassAuto.utf8_range2_correct. Qed.
+Print Assumptions C15_utf8_range2_correct.
+
+Theorem C15_utf8_range4_refuted : exists lo hi bs,
+  (0x10000 <= lo)%N /\ (lo <= hi)%N /\ (hi <= 0x10FFFF)%N /\
+  in_seqs bs (seqs4 lo hi) = true /\ ~ exists r, (lo <= r <= hi)%N /\ bs = encode r.
+Proof. exact ClassAuto.utf8_range4_refuted. Qed.
+Print Assumptions C15_utf8_range4_refuted.
